@@ -125,12 +125,26 @@ def r7_1(ctx: Ctx) -> None:
             return pol == isinstance(x.ops[0], ast.Is)
         return False
 
-    ok_imp = bool(imp) and bool(imp_rule) and all(g.path_avoiding([n], no_rule_edge) is None for n in imp + imp_rule)
-    # and on the no-rule edge the implicit stores are unavoidable
-    nre = [e for e in g.edges() if no_rule_edge(e)]
+    def rule_set_edge(e) -> bool:
+        """the opposite arm of the no-rule test: a deciding rule has been recorded"""
+        if not (e.label and e.label[0] == "cond"):
+            return False
+        x, pol = e.label[1], e.label[2]
+        if unparse(x) == rr:
+            return pol is True
+        if isinstance(x, ast.Compare) and unparse(x.left) == rr and isinstance(x.comparators[0], ast.Constant) and x.comparators[0].value is None:
+            return pol != isinstance(x.ops[0], ast.Is)
+        return False
+
+    is_match = lambda e: any(e is me for me in match_edges)  # noqa: E731
+    # (1) only when no rule matched: after a match edge the implicit stores are out of reach (the no-rule arm of a test on the
+    #     recorded rule cannot be taken there: the rule was just recorded).  (2) always when no rule matched: a path that takes no
+    #     match edge (so the recorded rule is still None and the rule-set arm cannot be taken) cannot reach the exit around them.
+    #     Written this way the `if not rule:` form and the `for ... else:` form are the same thing.
+    ok_imp = bool(imp) and bool(imp_rule) and all(
+        g.path_avoiding(imp + imp_rule, no_rule_edge, start=me.dst) is None for me in match_edges)
     imp_ids = {x.id for x in imp}
-    unavoidable = bool(nre) and all(e.dst.id in imp_ids or g.path_avoiding([g.exit], lambda e: False, start=e.dst, blocked_nodes=imp_ids) is None
-                                    for e in nre)
+    unavoidable = g.path_avoiding([g.exit], lambda e: is_match(e) or rule_set_edge(e), blocked_nodes=imp_ids) is None
     ctx.record("R7.1", ctx.key(fn, "implicit action exactly when no rule matched"), fn.loc(), ok_imp and unavoidable,
                "implicit verdict/rule are stored on, and only on, the no-match edge" if ok_imp and unavoidable else
                "implicit action is not tied to the no-match case")
